@@ -26,7 +26,7 @@ func init() { register(c14{}) }
 func (c14) ID() string    { return "C14" }
 func (c14) Level() string { return "exploration" }
 func (c14) Rule() string {
-	return "(i) value oracle: frames of every type including type 0 are decoded with UnmarshalBinary on zero, NewX() and reused receivers, on packets ReadPacket returned earlier and on value copies of those and with ReadPacket from a stream; all accessors are snapshotted, the input slice is overwritten with 0xAA and then with random bytes, and the snapshot must not change; packets read earlier from a stream must not change when later ones are read. (ii) race oracle (race-detector build): after the decode one goroutine scribbles over the input slice while another reads every accessor and calls WriteTo/String/Dump with no synchronisation — any aliasing is a data race even where values coincide. (iii) pools of 4..16 packets (decoded ones and fresh NewX() values, which share package-level data) under random histories of decode-into / encode / setter operations (also setters of two packets given one argument slice with spare capacity, and the program overwriting byte slices that accessors handed out): every untouched packet keeps its snapshot after every step and a reference frame decodes to the same snapshot wherever in the history it is decoded. (iv) long runs over a working set of 64..4097 recurring names (topics, user-property keys, client ids), each decode compared with the reference reading; byte slices handed out by accessors are kept while their packets are dropped and collected, and must not change. distinct = (type, receiver kind, frame digest) resp. history signature; non-trivial = frame body non-empty"
+	return "(i) value oracle: frames of every type including type 0 are decoded with UnmarshalBinary on zero, NewX() and reused receivers, on packets ReadPacket returned earlier and on value copies of those and with ReadPacket from a stream; all accessors are snapshotted, the input slice is overwritten with 0xAA and then with random bytes, and the snapshot must not change; packets read earlier from a stream must not change when later ones are read. (ii) race oracle (race-detector build): after the decode one goroutine scribbles over the input slice while another reads every accessor and calls WriteTo/String/Dump with no synchronisation — any aliasing is a data race even where values coincide. (iii) pools of 4..16 packets (decoded ones and fresh NewX() values, which share package-level data) under random histories of decode-into / encode / setter operations (also setters of two packets given one argument slice with spare capacity, and the program overwriting byte slices that accessors handed out): every untouched packet keeps its snapshot after every step and a reference frame decodes to the same snapshot wherever in the history it is decoded. (iv) long runs over a working set of 64..4097 recurring names (topics, user-property keys, client ids), each decode compared with the reference reading; byte slices handed out by accessors are kept while their packets are dropped and collected, and must not change. (v) plain build, few worker processes: 3..32 goroutines decode their own streams of 32 KiB+1 .. 1 MiB PUBLISH frames in parallel, every payload compared with the bytes of its own frame. distinct = (type, receiver kind, frame digest) resp. history signature; non-trivial = frame body non-empty"
 }
 func (c14) Assumptions() []string {
 	return []string{"slices handed to setters are the caller's business; the property concerns buffers handed to UnmarshalBinary / read buffers", "decoding into a used packet may leave any state in that packet, but must not touch others"}
@@ -34,9 +34,9 @@ func (c14) Assumptions() []string {
 
 func (c14) Phases(env run.Env) []run.Phase {
 	if env.Thorough {
-		return []run.Phase{{Name: "overwrite-input", N: 400000}, {Name: "scribble-under-race-detector", Race: true, N: 60000}, {Name: "pools", N: 400000}, {Name: "working-set", N: 400}}
+		return []run.Phase{{Name: "overwrite-input", N: 400000}, {Name: "scribble-under-race-detector", Race: true, N: 60000}, {Name: "pools", N: 400000}, {Name: "working-set", N: 400}, {Name: "parallel-streams", N: 8}}
 	}
-	return []run.Phase{{Name: "overwrite-input", N: 1600}, {Name: "scribble-under-race-detector", Race: true, N: 200}, {Name: "pools", N: 2000}, {Name: "working-set", N: 16}}
+	return []run.Phase{{Name: "overwrite-input", N: 1600}, {Name: "scribble-under-race-detector", Race: true, N: 200}, {Name: "pools", N: 2000}, {Name: "working-set", N: 16}, {Name: "parallel-streams", N: 2}}
 }
 
 // c14WorkingSet decodes many PUBLISH frames whose topics, user-property keys
@@ -101,6 +101,10 @@ func (c14) Run(c *run.Ctx, phase, idx int) {
 	r := rng(c.Env, "C14", phase, idx)
 	if phase == 3 {
 		c14WorkingSet(c, r, idx)
+		return
+	}
+	if phase == 4 {
+		c14ParallelStreams(c, r, idx)
 		return
 	}
 	switch phase {
@@ -756,4 +760,106 @@ func c14Pool(c *run.Ctx, r *gen.RNG) {
 	if c.WantSample() {
 		c.Sample(map[string]interface{}{"pool_size": len(pool), "history_head": trail[:minInt(len(trail), 12)], "steps": len(trail)})
 	}
+}
+
+// c14ParallelStreams: many goroutines, each decoding its own stream of large
+// PUBLISH frames whose payload only that stream can have, in the plain build
+// (code that hands out recycled buffers may differ between the race build
+// and this one) and with few worker processes, so that the goroutines really
+// run in parallel. Every decoded payload is compared with the bytes of its
+// own frame: a packet must not show another stream's content.
+func c14ParallelStreams(c *run.Ctx, r *gen.RNG, idx int) {
+	c.Concurrent(true)
+	G := []int{32, 8, 16, 3}[idx%4]
+	perG := 20000
+	if c.Thorough {
+		perG = 120000
+	}
+	if G < 32 {
+		perG = perG * 32 / G / 2
+	}
+	old := runtime.GOMAXPROCS(runtime.NumCPU())
+	defer runtime.GOMAXPROCS(old)
+	sizes := []int{32<<10 + 1, 40000, 64<<10 + 1, 100000, 33 << 10, 300000, 4096, 1 << 20}
+	type verdict struct {
+		bad   string
+		reads int
+	}
+	res := make([]verdict, G)
+	seeds := make([]uint64, G)
+	for g := range seeds {
+		seeds[g] = r.Uint64()
+	}
+	var wg sync.WaitGroup
+	start := make(chan struct{})
+	for g := 0; g < G; g++ {
+		wg.Add(1)
+		go func(g int) {
+			defer wg.Done()
+			size := sizes[(g+idx)%len(sizes)]
+			n := perG
+			if size > 200000 {
+				n = perG / 8
+			}
+			a := &ref.Packet{Type: ref.TPublish, Topic: fmt.Sprintf("stream/%d", g), Payload: make([]byte, size)}
+			frame, fm := ref.Encode(a)
+			off := -1
+			for _, sp := range fm {
+				if sp.Kind == "payload" {
+					off = sp.Off
+				}
+			}
+			if off < 0 {
+				return
+			}
+			payload := frame[off:]
+			x := seeds[g] | 1
+			<-start
+			for i := 0; i < n; i++ {
+				// the stream's own content: its number in every 64th byte, a counter in the first eight
+				x ^= x << 13
+				x ^= x >> 7
+				x ^= x << 17
+				for k := 0; k < len(payload); k += 64 {
+					payload[k] = byte(g)
+				}
+				for k := 0; k < 8 && k < len(payload); k++ {
+					payload[k] = byte(x >> (8 * uint(k)))
+				}
+				rd := mon.Read(bytes.NewReader(frame))
+				res[g].reads++
+				p, ok := rd.Pkt.(*mq.Publish)
+				if !rd.Accepted() || !ok {
+					res[g].bad = fmt.Sprintf("stream %d, frame %d of %d bytes: not decoded (%v %v)", g, i, len(frame), rd.Err, rd.Panic)
+					return
+				}
+				if !bytes.Equal(p.Payload(), payload) || p.TopicName() != a.Topic {
+					at := 0
+					got := p.Payload()
+					for at < len(got) && at < len(payload) && got[at] == payload[at] {
+						at++
+					}
+					res[g].bad = fmt.Sprintf("stream %d, frame %d of %d bytes: the decoded payload differs from the frame's at offset %d (topic %q)", g, i, len(frame), at, p.TopicName())
+					return
+				}
+				if i%512 == 0 {
+					c.Tick()
+				}
+			}
+		}(g)
+	}
+	close(start)
+	wg.Wait()
+	total := 0
+	for g := range res {
+		total += res[g].reads
+		if res[g].bad != "" {
+			c.Violation("C14/parallel-streams/foreign-content", "with "+itoa(G)+" goroutines decoding their own streams in parallel: "+res[g].bad, map[string]interface{}{"goroutines": G, "frames_per_goroutine": perG})
+			break
+		}
+	}
+	c.Eval(total)
+	c.Distinct(run.Hash64("parallel", itoa(idx)), true)
+	c.Count("parallel-streams", "goroutines="+itoa(G), 1)
+	c.Count("parallel-streams", "frames-decoded", int64(total))
 }
